@@ -462,6 +462,9 @@ def lifecycle_check(prop, tier):
         # under the guard), so no lifetime may see another one's calls
         hr = [{"id": k + 1, "mode": "helper", "threads": th, "rounds": rr, "site": 22, "n": 1, "k_match": 1, "k_nomatch": 0}
               for k, (th, rr) in enumerate([(8, 3000), (16, 1500)] if tier == "quick" else [(8, 40000), (16, 20000), (2, 50000)])]
+        # ... and the earliest call: another thread calls the function the instant its entry has been flushed
+        for n_, site_ in ((3, 21), (1, 20), (2, 19)):
+            hr.append({"id": len(hr) + 1, "mode": "early", "rounds": 300 if tier == "quick" else 5000, "n": n_, "site": site_, "threads": 2})
         hg, _, _ = vlib.run_harness("times", hr, "times_C07", timeout=3000)
         tvh = tlc.validate_traces("Trace_Times", "Trace_Times", [(r["id"], hg.get(r["id"], [])) for r in hr], WORK, "trace_times_C07", timeout=3000)
         run.traces += len(tvh["accepted"])
@@ -469,11 +472,12 @@ def lifecycle_check(prop, tier):
         run.transitions += tvh["transitions"]
         run.extra["shared_line_threads"] = {"runs": len(hr), "accepted": len(tvh["accepted"])}
         for r in hr:
-            run.note_case("shared line threads=%s lifetimes=%s" % (r["threads"], r["rounds"]))
+            run.note_case("%s threads=%s lifetimes=%s" % (r["mode"], r["threads"], r["rounds"]))
             if r["id"] not in tvh["accepted"]:
                 evs = hg.get(r["id"], [])
-                run.violation("C07 shared line on %s threads: a lifetime's verdict saw another lifetime's calls" % r["threads"],
-                              {"round": r, "events": [e for e in evs if e["ev"] in ("Helper", "ChildExit")]})
+                what = ("shared line on %s threads: a lifetime's verdict saw another lifetime's calls" % r["threads"]) if r["mode"] == "helper" else \
+                       ("a call made by another thread the instant the entry was flushed was not counted from zero (times: %s)" % r["n"])
+                run.violation("C07 " + what, {"round": r, "events": [e for e in evs if e["ev"] in ("Helper", "Early", "ChildExit")]})
     if prop in ("C17", "C12", "C02"):
         run.sim_part("platform variants", lambda: platform_part(run, prop, tier))
     if prop in ("C02", "C03", "C12"):
@@ -701,6 +705,16 @@ def placement_check(prop, tier):
                            "events": [e for e in evs if e["ev"] in ("Place", "Installed", "Called", "Dropped", "ChildExit", "Neighbour")]})
     for sc in live[:3]:
         run.sample({"placement": sc, "installed": next((e for e in groups.get(sc["id"], []) if e["ev"] == "Installed"), None)})
+    if prop == "C01":
+        # "from any call site or thread": the instant a function's entry has been flushed another thread calls it
+        er = [{"id": 1, "mode": "early", "rounds": 300 if tier == "quick" else 5000, "n": 2, "site": 16, "threads": 2}]
+        eg, _, _ = vlib.run_harness("times", er, "times_C01", timeout=3000)
+        tve = tlc.validate_traces("Trace_Times", "Trace_Times", [(1, eg.get(1, []))], WORK, "trace_times_C01", timeout=600)
+        run.traces += len(tve["accepted"])
+        run.note_case("earliest call from another thread x %d lifetimes" % er[0]["rounds"])
+        if 1 not in tve["accepted"]:
+            run.violation("C01 a call made by another thread the instant the entry was flushed did not reach the fake",
+                          {"events": [e for e in eg.get(1, []) if e["ev"] in ("Early", "ChildExit")]})
     if prop == "C01":
         # "a call arrives at the replacement" when the function already carries other replacements: every behaviour of the
         # three-installation generator (A, B, A patterns over two fakes and a forced boolean, one or two functions), replayed
@@ -1146,6 +1160,8 @@ def times_check(prop, tier):
     # lifetimes on many threads built through one shared helper line
     for th, rr in ([(8, 3000), (16, 1500)] if tier == "quick" else [(8, 40000), (16, 20000), (2, 50000)]):
         rounds.append({"id": len(rounds) + 1, "mode": "helper", "threads": th, "rounds": rr, "site": 23, "n": 1, "k_match": 1, "k_nomatch": 0})
+    for n_, site_ in ((3, 18), (1, 17)):
+        rounds.append({"id": len(rounds) + 1, "mode": "early", "rounds": 300 if tier == "quick" else 5000, "n": n_, "k_match": n_, "k_nomatch": 0, "threads": 2, "site": site_})
     tgroups, torder, _ = vlib.run_harness("times", rounds, "times_C06", timeout=3000)
     tv2 = tlc.validate_traces("Trace_Times", "Trace_Times", [(r["id"], tgroups.get(r["id"], [])) for r in rounds], WORK,
                               "trace_times", timeout=3000)
